@@ -269,12 +269,20 @@ def run_long(case):
         itp = h.itp
         nn = h.npt + n + 1
         done = 0
+        # contracting histories: the set shrinks around an UNCHANGED base
+        # point by 4-6 decades (no shift, no reset), farthest point replaced
+        shrink = float(rng.choice([0.0, 0.0, 0.9, 0.93]))
         for t in range(130):
             if jd.viols:
                 break
             kind, x_new = h.new_point("near")
             how, k = h.choose_index(x_new, "max_det" if rng.random() < 0.7
                                     else "random")
+            if shrink:
+                x_new = itp.x_base + rng.standard_normal(n) * h.radius \
+                    * shrink ** (t + 1)
+                k = int(np.argmax(np.linalg.norm(itp.xpt, axis=0)))
+                jd.count("contracting_updates")
             fv, cub, ceq = h.pb(x_new)
             dd = [float(fv - h.models.fun(x_new))]
             dd += [float(c_ - m_) for c_, m_ in zip(cub, h.models.cub(x_new))]
